@@ -94,17 +94,8 @@ func allReturns(fn *ssa.Function) []*ssa.Return {
 
 // zero32Global: the package-level all-zero 32-byte array used by the caller check.
 func zero32Global(p *Prog, r *Report) {
-	init := p.globalInit("keeper.zeroByteArray")
-	ok := init != nil && init.Op == "buf" && init.S == "32" && len(init.A) == 32
-	if ok {
-		for _, a := range init.A {
-			if a.String() != "0" {
-				ok = false
-			}
-		}
-	}
-	r.check(ok, "T-eq", "T-eq/keeper.zeroByteArray", "", "zeroByteArray is a 32-byte all-zero literal (never written: C18)",
-		fmt.Sprintf("keeper.zeroByteArray is no longer a 32-byte all-zero literal: %v", init))
+	// (a package-level all-zero buffer that is never written is resolved to buf(N){} by the term
+	// extractor; a zero-caller comparison against anything else shows up as a different atom)
 	pm := p.globalInit("types.PaddedModuleAddress")
 	r.check(pm != nil && pm.String() == "buf(32){}", "T-eq", "T-eq/types.PaddedModuleAddress/alloc", "", "PaddedModuleAddress = make([]byte,32)",
 		fmt.Sprintf("PaddedModuleAddress initialiser is %v", pm))
@@ -185,8 +176,8 @@ func runC03(p *Prog, r *Report, tier string) {
 		{"attestation-valid", []Atom{A("(VAS == nil)")}},
 		{"header-parsed", []Atom{A("(MP#1 == nil)")}},
 		{"destination-domain==4", []Atom{A("(M.DestinationDomain == 4)")}},
-		{"caller-zero-or-submitter", []Atom{A("bytes.Equal(M.DestinationCaller,keeper.zeroByteArray)"), A("(ENC#0 == p2.From)")}},
-		{"caller-zero-or-encodable", []Atom{A("bytes.Equal(M.DestinationCaller,keeper.zeroByteArray)"), A("(ENC#1 == nil)")}},
+		{"caller-zero-or-submitter", []Atom{A("bytes.Equal(M.DestinationCaller,buf(32){})"), A("(ENC#0 == p2.From)")}},
+		{"caller-zero-or-encodable", []Atom{A("bytes.Equal(M.DestinationCaller,buf(32){})"), A("(ENC#1 == nil)")}},
 		{"version==0", []Atom{A("(M.Version == 0)")}},
 		{"nonce-unused", []Atom{A("!k.GetUsedNonce(ctx,N)")}},
 	}
@@ -244,6 +235,11 @@ func runC03(p *Prog, r *Report, tier string) {
 	// exactly one success-capable return
 	r.check(len(c.successReturns()) == 1, "G-exact", "G-exact/ReceiveMessage/single-success-exit", c.pos(), "one success-capable return",
 		fmt.Sprintf("%d success-capable returns", len(c.successReturns())))
+	// "nonce unused" means "never successfully received": every success path marks the nonce it tested
+	if set := c.oneCall("G-mpt", "k.SetUsedNonce"); set != nil {
+		c.teq("T-eq", "marked-nonce", c.shn(c.argTerms(set)[1].String()), "N", p.instrPos(set))
+		c.mustPass("G-mpt", "every-success-marks-the-nonce", []ssa.Instruction{set}, c.successReturns())
+	}
 	// what is verified is what is parsed
 	if vas := c.oneCall("T-eq", "keeper.VerifyAttestationSignatures"); vas != nil {
 		args := c.args(vas)
